@@ -856,6 +856,11 @@ pub fn check_file_with_env(
         crate::typer::results::TypeckResultsBuilder::new(&typer.hir_table),
     );
     results.finalize_types(&mut typer);
+    super::check::check_operator_operand_classes(
+        &typer.hir_table,
+        results.results(),
+        &mut diagnostics,
+    );
     typer.results = results;
     let file = crate::typer::tast_builder::build_file(
         &genv,
@@ -903,6 +908,11 @@ pub fn check_file_with_env_and_results(
         crate::typer::results::TypeckResultsBuilder::new(&typer.hir_table),
     );
     results.finalize_types(&mut typer);
+    super::check::check_operator_operand_classes(
+        &typer.hir_table,
+        results.results(),
+        &mut diagnostics,
+    );
     let results = results.finish();
 
     (typer.hir_table, results, genv.current, diagnostics)
